@@ -18,8 +18,8 @@ let ascii_of_str s = String.concat "" (List.map (fun r -> String.make 1 (Char.ch
 
 let tok_sx (t : token) : string =
   let ty = ascii_of_str t.ttype in
-  Printf.sprintf "(%s \"%s\" %d %d)" (if ty = "" then "<empty>" else ty) (hex_of_str t.tlit)
-    (int_of_n t.tline) (int_of_n t.tpos)
+  Printf.sprintf "(%s \"%s\" %d %d %d)" (if ty = "" then "<empty>" else ty) (hex_of_str t.tlit)
+    (int_of_n t.tline) (int_of_n t.tpos) (int_of_n t.toff)
 
 let comment_sx (c : comment) : string =
   Printf.sprintf "(c \"%s\" %d %d %s %d)" (hex_of_str c.ctok.tlit) (int_of_n c.ctok.tline)
